@@ -39,8 +39,10 @@ PROPS = {
         ],
     },
     "C11": {
-        "module": ["GoatProofs.C11", "GoatProofs.C11H"],
-        "theorems": ["Goat.C11.slash_amount", "Goat.C11.slash_le_holding",
+        "module": ["GoatProofs.C11", "GoatProofs.C11H", "GoatProofs.C11P"],
+        "theorems": ["Goat.C11P.validate_bounds", "Goat.C11P.validate_complete", "Goat.C11P.validated_fractions_are_nat",
+                     "Goat.C11P.Finding.F14_pinned_validation_admits_negative_fraction",
+                     "Goat.C11.slash_amount", "Goat.C11.slash_le_holding",
                      "Goat.C11H.lockOne_spec", "Goat.C11H.lock_spec", "Goat.C11H.unlockCore_spec", "Goat.C11H.unlockOne_exact", "Goat.C11H.unlock_spec",
                      "Goat.C11H.slashAll_spec", "Goat.C11H.handleVotes_spec", "Goat.C11H.handleEvidence_spec", "Goat.C11H.dequeueMature_spec",
                      "Goat.C11H.beginBlock_spec", "Goat.C11H.dequeue_spec", "Goat.C11H.processRequests_spec", "Goat.C11H.endBlocker_frame",
@@ -83,8 +85,8 @@ PROPS = {
                         "the two excluded failure modes are the recorded known findings F6b (total power above CometBFT's maximum) and F10 (set emptied)"],
     },
     "C14": {
-        "module": ["GoatProofs.C14", "GoatProofs.C14H"],
-        "theorems": ["Goat.C14.non_active_not_counted", "Goat.C14.downtime_exact", "Goat.C14.evidence_tombstones", "Goat.C14.isStale_iff",
+        "module": ["GoatProofs.C14", "GoatProofs.C14H", "GoatProofs.C11P"],
+        "theorems": ["Goat.C11P.validate_bounds", "Goat.C11P.validated_fractions_are_nat", "Goat.C14.non_active_not_counted", "Goat.C14.downtime_exact", "Goat.C14.evidence_tombstones", "Goat.C14.isStale_iff",
                      "Goat.C14.stale_evidence_ignored", "Goat.C14.tombstoned_not_slashed_again", "Goat.C14.tombstone_absorbing_lock",
                      "Goat.C14H.evidence_establishes_tomb", "Goat.C14H.tombstone_permanent", "Goat.C14H.tombstone_leaves_valset", "Goat.C14H.tomb_not_slashed_again",
                      "Goat.C14H.tombstoned_forever_from_genesis", "Goat.C14H.tombstoned_leaves_valset_from_genesis", "Goat.C14H.downtime_establishes_jailed",
